@@ -75,7 +75,7 @@ class Replica:
         for t, v in (initial_defaults or []):
             idf[W.type(t)] = pyconst(W, v)
         if kind == "ma":
-            self.p = MultiAgentProblem(name, W.env)
+            self.p = MultiAgentProblem(name, W.env, initial_defaults=idf)
             return
         cls = {"contingent": ContingentProblem, "hierarchical": HierarchicalProblem}.get(kind, Problem)
         self.p = cls(name, W.env, initial_defaults=idf)
@@ -1268,11 +1268,23 @@ class ModelHist(Engine):
         objs = world["objects"]
         fl = world["fluents"]
         ops = [{"op": "add_object", "obj": o} for o, _ in objs]
+        rd_ = stream(seed, "ma-defaults")
+        ma_idf = []
+        if rd_.random() < 0.4:
+            ma_idf.append([["bool"], ["bool", rd_.random() < 0.5]])
+        if rd_.random() < 0.3:
+            ma_idf.append([["int", 0, 5], ["int", rd_.randint(0, 5)]])
+
+        def dflt(fd, vals):
+            # every multi-agent fluent gets a default (MultiAgentProblem.__eq__ needs all initial values): its own, or
+            # the one declared for its type when the problem was created
+            if any(t_ == fd["type"] for t_, _ in ma_idf) and rd_.random() < 0.6:
+                return None
+            return ro.choice(vals) if vals else None
         env_fl = fl[:2]
         for fd in env_fl:
             vals = values_of(fd["type"], objs, tmap)
-            # every multi-agent fluent gets a default: MultiAgentProblem.__eq__ needs all initial values
-            ops.append({"op": "ma_env_fluent", "fluent": fd, "default": ro.choice(vals) if vals else None})
+            ops.append({"op": "ma_env_fluent", "fluent": fd, "default": dflt(fd, vals)})
         free = list(fl[2:])
         agents = {}   # name -> {"fluents": [fd], "actions": {name: ad}}
         n_act = 0
@@ -1299,7 +1311,7 @@ class ModelHist(Engine):
             fls = []
             for fd in mine:
                 vals = values_of(fd["type"], objs, tmap)
-                fls.append([fd, ro.random() < 0.5, ro.choice(vals) if vals else None])
+                fls.append([fd, ro.random() < 0.5, dflt(fd, vals)])
             acts = [ag_action(name, mine + env_fl)] if mine else []
             agents[name] = {"fluents": mine, "actions": {a["name"]: a for a in acts}}
             return {"op": "add_agent", "name": name, "fluents": fls, "actions": acts}
@@ -1323,7 +1335,7 @@ class ModelHist(Engine):
                 fd = free.pop(0)
                 vals = values_of(fd["type"], objs, tmap)
                 ops.append({"op": "agent_add_fluent", "agent": an, "fluent": fd, "public": ro.random() < 0.5,
-                            "default": ro.choice(vals) if vals else None})
+                            "default": dflt(fd, vals)})
                 ag["fluents"].append(fd)
             elif r < 0.27 and ag["fluents"] and faulty:
                 ops.append({"op": "agent_add_fluent", "agent": an, "fluent": ro.choice(ag["fluents"]), "public": False,
@@ -1385,7 +1397,7 @@ class ModelHist(Engine):
                 else:
                     rs.shuffle(to)
             sched.append(dict(op, to=to))
-        return {"engine": self.name, "kind": "ma", "initial_defaults": [], "initial_defaults_faulty": None, "world": world,
+        return {"engine": self.name, "kind": "ma", "initial_defaults": ma_idf, "initial_defaults_faulty": None, "world": world,
                 "ops": sched}
 
     # ------------------------------------------------------------------- execute
